@@ -47,7 +47,7 @@ func VF_C05_ReaderAfterBatch(unsafe int, order int) {
 // the other's document after its own acknowledgement was overwritten, so the
 // final document is the other's.
 //
-// vf:harness property=C05 cases=unsafe:0..1;order:0..1 cases.thorough=unsafe:0..1;order:0..2 sched=1 schedbudget=1 schedbudget.thorough=2 preempt=1 preempt.thorough=1 schedtotal=1 schedtotal.thorough=2 goinline=1 chanslack=8 deadlock=violation clock=zero maxpaths=400000 replay=model-only diff=off
+// vf:harness property=C05 cases=unsafe:0..1;order:0..1 cases.thorough=unsafe:0..1;order:0..1 sched=1 schedbudget=1 schedbudget.thorough=2 preempt=1 preempt.thorough=1 schedtotal=1 schedtotal.thorough=2 goinline=1 chanslack=8 deadlock=violation clock=zero maxpaths=400000 replay=model-only diff=off
 // vf:replace hash/crc32.Update vfChecksumUpdate
 // vf:replace io.CopyN vfCopyN
 // vf:replace (*github.com/RoaringBitmap/roaring.Bitmap).ReadFrom vfRoaringReadFrom
